@@ -11,7 +11,8 @@ LEVEL = 'exploration'
 LEVEL_TEXT = ('Every input of the corpus is edited by every single edit (quick) and every pair of edits from different families '
               '(thorough) of a fixed list: one record of each ignorable residue name as ATOM and HETATM at four positions and 2.6 A '
               'from a group, each non-atom record type, hydrogens with each naming pattern on each heavy atom of a residue, and '
-              'rewrites of the serial, occupancy, B-factor, element and charge columns (including truncated and over-long lines); '
+              'rewrites of the serial, occupancy, B-factor, element and charge columns (uniform, alternating and per-alt-loc values, truncated '
+              'and over-long lines), also on multi-conformation inputs whose residues carry different alt-loc sets; '
               'the real results must equal those of the unedited input. --protonate-all is compared with the default run, and for '
               'amino-acid inputs the program\'s own hydrogens are written back and the --keep-protons run compared with the default.')
 LEVEL_NOTE = ('Differential oracle between real executions (1e-9). A fed-back hydrogen closer than 1.5 A to a second heavy atom is '
@@ -67,7 +68,7 @@ def edit_list(items, tier):
     # other record types
     for rec_line in OTHER_RECORDS:
         for pname, p in pos.items():
-            if tier == 'quick' and pname not in ('start', 'inside-residue'):
+            if tier == 'quick' and pname not in ('start', 'inside-residue', 'between-residues'):
                 continue
             new = list(items)
             new.insert(p, rec_line)
@@ -107,6 +108,11 @@ def edit_list(items, tier):
         'tail-blank': lambda a: setattr(a, 'tail', ''), 'tail-long': lambda a: setattr(a, 'tail', '           C      junk beyond column 80'),
         'serial-hy36': lambda a: setattr(a, 'serial', 'A%04d' % (int(a.serial) % 10000 if a.serial.strip().lstrip('-').isdigit() else 0)),
         'serial-same': lambda a: setattr(a, 'serial', '    1'),
+        # values that differ from atom to atom / between alternate locations
+        'occ-by-altloc': lambda a: setattr(a, 'occ', {' ': '  1.00', 'A': '  0.30', '1': '  0.30', 'B': '  0.70', '2': '  0.70', 'C': '  0.10'}.get(a.alt, '  0.45')),
+        'occ-by-altloc-reversed': lambda a: setattr(a, 'occ', {' ': '  0.20', 'A': '  0.60', '1': '  0.60', 'B': '  0.15', '2': '  0.15', 'C': '  0.25'}.get(a.alt, '  0.45')),
+        'occ-alternating': lambda a: setattr(a, 'occ', '  0.25' if (a.x + a.y + a.z) % 2 else '  0.75'),
+        'b-alternating': lambda a: setattr(a, 'b', ' 10.00' if (a.x + a.y + a.z) % 2 else ' 80.00'),
     }
     for name, fn in cols.items():
         out.append(('column', 'column/' + name, rewrite(fn)))
@@ -115,6 +121,8 @@ def edit_list(items, tier):
     for it in items:
         trunc.append(it if isinstance(it, str) else it.line()[:54] + '\n')
     out.append(('column', 'column/truncated-after-xyz', trunc))
+    if any(isinstance(it, str) and it.startswith('ENDMDL') for it in items):
+        out.append(('record', 'record/ENDMDL/all-removed', [it for it in items if not (isinstance(it, str) and it.startswith('ENDMDL'))]))
     return out
 
 
@@ -129,6 +137,14 @@ def inputs(tier):
     out.append(dict(src='c08', d=dict(kind='model', layout=[[1, 'ASP'], [2, 'ASPs']])))
     out.append(dict(src='repeat', d=corpus.cutout_desc('4DFR', 'A', 26, 8.0)))
     out.append(dict(src='repeat', d=corpus.pair_desc('HIS', 'GLU', 3.0, 'mid')))
+    # three conformations whose residues carry different sets of alternate locations (an atom can be completed from several others)
+    for lay, lys in (([['A', 'ASP'], ['B', 'ASPs'], ['C', 'ASP']], [['A', 'LYS'], ['B', 'LYSs']]),
+                     ([['A', 'ASP'], ['B', 'ASPs']], [['A', 'LYS'], ['B', 'LYSs'], ['C', 'LYS']]),
+                     ([[' ', 'ASP'], ['B', 'ASPs']], [['B', 'LYSs'], ['C', 'LYS']])):
+        out.append(dict(src='c08', d=dict(kind='alt', layout=lay, lys=lys)))
+    # models whose last chain is not closed by TER
+    out.append(dict(src='repeat', d=corpus.pair_desc('ASP', 'LYS', 2.8, 'exposed'), noter=True))
+    out.append(dict(src='repeat', d=corpus.window_desc('1HPX', 'A', 20, 8), second=corpus.window_desc('1HPX', 'B', 40, 6), noter=True))
     return out
 
 
@@ -138,7 +154,7 @@ def plan(tier, seed):
     return dict(shards=shards, exhaustive=True,
                 rule=('inputs: 5-residue windows, 8 A cut-outs, docked pairs (4x6 kinds incl. ligands/ions), clusters; edits: %d ignorable '
                       'residue names x ATOM/HETATM x own/other chain x 4 positions, %d other record types x positions, %d hydrogen names x '
-                      'heavy atoms of one residue, 16 column rewrites; thorough: also every pair of edits from two different families '
+                      'heavy atoms of one residue, 20 column rewrites (incl. values that differ between alternate locations); thorough: also every pair of edits from two different families '
                       '(first edit of each family per position class); options: default for all, --protonate-all and keep-protons feedback '
                       'per input. non-trivial = distinct (input, edit)') % (len(IGNORABLE), len(OTHER_RECORDS), len(H_NAMES)),
                 bounds=dict(inputs=len(ins), max_simultaneous_edits=1 if tier == 'quick' else 2), samples=[ins[0]])
@@ -183,12 +199,21 @@ def hydrogens_fed_back(s, mol):
 def run_case(case, ctx, acc):
     if case['src'] == 'c08':
         from . import c08
-        s = c08.build(dict(case['d'], layout=[tuple(x) for x in case['d']['layout']]), ctx.seed)
+        d = dict(case['d'], layout=[tuple(x) for x in case['d']['layout']])
+        if d.get('lys'):
+            d['lys'] = [tuple(x) for x in d['lys']]
+        s = c08.build(d, ctx.seed)
     elif case['src'] == 'repeat':
         one = corpus.build(case['d'], ctx.seed)
+        if case.get('second'):
+            one = gen.S(one.items + ['TER\n'] + corpus.build(case['second'], ctx.seed).items)
+        its = list(one.items)
+        if case.get('noter'):
+            while its and isinstance(its[-1], str):
+                its.pop()
         items = []
         for m in (1, 2):
-            items += ['MODEL     %4d\n' % m] + [i.clone() if not isinstance(i, str) else i for i in one.items] + ['ENDMDL\n']
+            items += ['MODEL     %4d\n' % m] + [i.clone() if not isinstance(i, str) else i for i in its] + ['ENDMDL\n']
         s = gen.S(items)
     else:
         s = corpus.build(case['d'], ctx.seed)
@@ -204,7 +229,9 @@ def run_case(case, ctx, acc):
             acc.viols.append(Viol(sub, 'no-effect', 'edit-changes-result/%s/%s' % (sub['edit'].split('/')[0] + '/' + sub['edit'].split('/')[1]
                                                                                  if family in ('record', 'column') else family, d[0][0]),
                                   '%s: %s' % (sub['edit'], str(d[0])[:300]), inputs=dict(pdb=text0, edited=text, opts=list(opts))))
-    eds = edit_list(s.items, ctx.tier) if case['src'] == 'corpus' else []
+    eds = edit_list(s.items, ctx.tier)
+    if case['src'] != 'corpus':     # multi-conformation inputs: records and columns only
+        eds = [e for e in eds if e[0] in ('record', 'column') and not e[1].startswith(('record/ENDMDL/', 'record/atom/')) or e[1] == 'record/ENDMDL/all-removed']
     for family, name, items in eds:
         compare(dict(case, edit=name), gen.to_text(items), (), family)
     if ctx.tier == 'thorough':
